@@ -377,6 +377,9 @@ func NewWorld(cfg Config, verbose bool) (*World, error) {
 				return nil, err
 			}
 			c.Conn = conn
+			if cfg.StreamWindow > 0 {
+				conn.SetRecvWindow(cfg.StreamWindow)
+			}
 		}
 	}
 
